@@ -6,6 +6,9 @@
 #include "C05_common.hpp"
 
 #include <fcppt/loop.hpp>
+#include <fcppt/move_clear.hpp>
+#include <fcppt/move_if_rvalue.hpp>
+#include <fcppt/move_iterator_if_rvalue.hpp>
 #include <fcppt/algorithm/fold.hpp>
 #include <fcppt/algorithm/fold_break.hpp>
 #include <fcppt/algorithm/map.hpp>
@@ -251,6 +254,57 @@ void algorithm_move_range()
       x.result_is(r, want);
     });
   }
+}
+
+
+// ---------------------------------------------------------------- the value-category helpers themselves
+void helpers()
+{
+  for (int n : sizes())
+    run_case("move_clear", sz(n), n > 0, [&](ctx &x) {
+      vec v = make_vec(n);
+      std::vector<int> const want = ids_of(v);
+      x.inout("value", v);
+      x.arm();
+      vec r = fcppt::move_clear(v);
+      x.disarm();
+      x.result_is(r, want);
+      VRT_CHECK(v.empty(), x.op() + ":value:not_cleared", "source still has %zu elements", v.size());
+    });
+  // move_if_rvalue<Type>(arg): moves iff Type is not an lvalue reference or arg is an rvalue
+  for_cat([&](auto ct) {
+    for_cat([&](auto ca) {
+      constexpr cat CT = decltype(ct)::value;
+      constexpr cat CA = decltype(ca)::value;
+      using type_param = std::conditional_t<CT == cat::lv, vec &, std::conditional_t<CT == cat::clv, vec const &, vec>>;
+      run_case("move_if_rvalue", std::string("Type:") + cat_name(CT) + ", arg:" + cat_name(CA), true, [&](ctx &x) {
+        tracked v(7);
+        constexpr bool moves = CA != cat::clv && (CT == cat::rv || CA == cat::rv);
+        // declared category of the argument for the oracle: it is an "rvalue" exactly when the helper is documented to move it
+        x.arg("arg", moves ? cat::rv : CA, v);
+        x.arm();
+        tracked r(fcppt::move_if_rvalue<type_param>(pass<CA>(v)));
+        x.disarm();
+        x.result_is(r, ids_of(v));
+        VRT_CHECK(peek::moved(v) == moves, x.op() + ":arg:moved", "source moved=%d, documented: %d", int(peek::moved(v)), int(moves));
+      });
+    });
+  });
+  for_cat([&](auto ct) {
+    constexpr cat CT = decltype(ct)::value;
+    using type_param = std::conditional_t<CT == cat::lv, vec &, std::conditional_t<CT == cat::clv, vec const &, vec>>;
+    for (int n : sizes())
+      run_case("move_iterator_if_rvalue", std::string("Type:") + cat_name(CT) + " " + sz(n), n > 0, [&](ctx &x) {
+        vec v = make_vec(n);
+        std::vector<int> const want = ids_of(v);
+        x.arg("container", CT == cat::rv ? cat::rv : CT, v);
+        x.arm();
+        vec r(fcppt::move_iterator_if_rvalue<type_param>(v.begin()), fcppt::move_iterator_if_rvalue<type_param>(v.end()));
+        x.disarm();
+        x.result_is(r, want);
+        x.after("container", v);
+      });
+  });
 }
 
 // ---------------------------------------------------------------- container
@@ -521,9 +575,10 @@ namespace c05
 {
 void register_algorithm_container_shards()
 {
-  vrt::shard("algorithm/map+reverse", [] {
+  vrt::shard("algorithm/map+reverse+helpers", [] {
     algorithm_map();
     algorithm_reverse();
+    helpers();
     flush_info();
   });
   vrt::shard("algorithm/fold", [] {
